@@ -30,6 +30,11 @@ class Verifier:
             self.lemmas.update(getattr(mod, 'LEMMAS', {}))
             self.spec.update(getattr(mod, 'SPEC', {}))
             self.key_models.update(getattr(mod, 'KEY_MODELS', {}))
+        # the class invariant is a precondition of every method whose receiver is built with it
+        for k, c in self.contracts.items():
+            inv = getattr(c.get('self'), 'inv', None)
+            if inv and not c.get('no_inv') and inv not in c.get('requires', []):
+                c['requires'] = [inv] + list(c.get('requires', []))
         self.sb.load('localcider.backend.sequence')
         self.interp = Interp(self.sb, self.contracts, self.loops, models.build_models(), solve.feasibility_oracle)
         self.interp.spec_env.update(self.spec)
@@ -56,6 +61,10 @@ class Verifier:
                 rep = contract.FunctionReport(key)
                 rep.out_of_subset.append(str(u))
             reports.append(rep)
+            rep.key = key
+            if '#' in key:
+                for o in rep.obligations:
+                    o.name = o.name + '#' + key.split('#')[1]
             seen = set()
             for o in rep.obligations:
                 k = (o.name, tuple(sorted(p.get_id() for p in o.pc)), o.goal.get_id())
